@@ -246,6 +246,18 @@ var (
 
 func leanStr(s string) string { return strconv.Quote(s) }
 
+// renameType replaces the identifier `name` by T in a comma-separated list of simple type texts.
+func renameType(list, name string) string {
+	parts := strings.Split(list, ", ")
+	for i, p := range parts {
+		if p == name {
+			parts[i] = "T"
+		}
+	}
+
+	return strings.Join(parts, ", ")
+}
+
 // countW returns the verbs of a literal format string in order (one byte per verb), false when the format uses
 // explicit argument indexes or `*` widths (then the verb-to-argument mapping is not positional).
 func fmtVerbs(f string) ([]byte, bool) {
@@ -1772,6 +1784,88 @@ func main() {
 			uniq = append(uniq, s)
 		}
 	}
+	// type facts: the union of the Integer constraint and the parameter / result types of the exported functions (names of
+	// parameters are left out: renaming one is not a change of the interface)
+	src := func(e ast.Expr) string {
+		var b strings.Builder
+		printer.Fprint(&b, fset, e)
+
+		return b.String()
+	}
+	var constraint, sigTexts []string
+	for _, d := range f.Decls {
+		switch d := d.(type) {
+		case *ast.GenDecl:
+			if d.Tok != token.TYPE {
+				continue
+			}
+			for _, sp := range d.Specs {
+				ts := sp.(*ast.TypeSpec)
+				it, ok := ts.Type.(*ast.InterfaceType)
+				if !ok || ts.Name.Name != "Integer" {
+					continue
+				}
+				for _, m := range it.Methods.List {
+					var walk func(e ast.Expr)
+					walk = func(e ast.Expr) {
+						if be, ok := e.(*ast.BinaryExpr); ok && be.Op == token.OR {
+							walk(be.X)
+							walk(be.Y)
+
+							return
+						}
+						constraint = append(constraint, leanStr(strings.ReplaceAll(src(e), " ", "")))
+					}
+					if len(m.Names) == 0 {
+						walk(m.Type)
+					} else {
+						constraint = append(constraint, leanStr("method "+m.Names[0].Name))
+					}
+				}
+			}
+		case *ast.FuncDecl:
+			if d.Recv != nil || !d.Name.IsExported() {
+				continue
+			}
+			list := func(fl *ast.FieldList) string {
+				if fl == nil {
+					return ""
+				}
+				var parts []string
+				for _, fld := range fl.List {
+					n := len(fld.Names)
+					if n == 0 {
+						n = 1
+					}
+					for i := 0; i < n; i++ {
+						parts = append(parts, src(fld.Type))
+					}
+				}
+
+				return strings.Join(parts, ", ")
+			}
+			tp := ""
+			if d.Type.TypeParams != nil {
+				var parts []string
+				for _, fld := range d.Type.TypeParams.List {
+					for range fld.Names {
+						parts = append(parts, src(fld.Type))
+					}
+				}
+				tp = "[" + strings.Join(parts, ", ") + "]"
+			}
+			// the type parameter is printed as T whatever it is called
+			sgn := tp + "(" + list(d.Type.Params) + ") (" + list(d.Type.Results) + ")"
+			if d.Type.TypeParams != nil && len(d.Type.TypeParams.List) == 1 && len(d.Type.TypeParams.List[0].Names) == 1 {
+				if name := d.Type.TypeParams.List[0].Names[0].Name; name != "T" {
+					sgn = tp + "(" + renameType(list(d.Type.Params), name) + ") (" + renameType(list(d.Type.Results), name) + ")"
+				}
+			}
+			sigTexts = append(sigTexts, fmt.Sprintf("(%s, %s)", leanStr(d.Name.Name), leanStr(sgn)))
+		}
+	}
+	fmt.Fprintf(&out, "/-- the type set of the constraint `Integer` -/\ndef integerConstraint : List String := [%s]\n\n", strings.Join(constraint, ", "))
+	fmt.Fprintf(&out, "/-- type parameters, parameter types and result types of the exported functions -/\ndef signatures : List (String × String) := [\n  %s]\n\n", strings.Join(sigTexts, ",\n  "))
 	out.WriteString("open Hive.SafeMathErr in\n/-- the package-level error variables of safe_math.go and their definitions -/\n")
 	fmt.Fprintf(&out, "def sentinelDefs : List (String × List Tok) := [%s]\n\n", strings.Join(sentinelDefs, ", "))
 	out.WriteString("open Hive.SafeMathErr in\n/-- the return statements of the exported ierrors functions (default build, ierrors_no_stacktrace.go) whose first parameter is an error -/\n")
